@@ -87,6 +87,8 @@ def robustness_inputs(ctx, n):
 
 def classify(kind, cat, answer):
     """None = fine; else a description of the failure."""
+    if answer == "SKIPPED":
+        return None
     if answer.startswith("CRASH"):
         return "terminated abnormally: " + answer[6:400]
     if answer.startswith("HANG"):
@@ -175,8 +177,8 @@ def run(ctx):
             lines.append("%s %s %s" % (opt, cat, (data or b" ").hex()))
             metas.append((kind, cat, opt, data))
             kinds_count[kind] = kinds_count.get(kind, 0) + 1
-        answers = stages.run_harness(ctx, "tree", lines, flavour=flavour, per_case_s=30 if "asan" in flavour else 15)
-        total += len(lines)
+        answers = stages.run_harness(ctx, "tree", lines, flavour=flavour, per_case_s=30 if "asan" in flavour else 15, max_failures=10)
+        total += sum(1 for a in answers if a != "SKIPPED")
         for (kind, cat, opt, data), a in zip(metas, answers):
             why = classify(kind, cat, a)
             if why:
